@@ -65,7 +65,7 @@ class Ctx:
         return os.path.join(self.scratch, name)
 
     # ---- TLC ----
-    def tlc(self, module, cfg, env=None, workers=None, args=(), timeout=1800, expect_ok=True, name=None, heap=None):
+    def tlc(self, module, cfg, env=None, workers=None, args=(), timeout=1800, expect_ok=True, name=None, heap=None, coverage=False):
         meta = self.path("meta-%d" % len(self.mc_runs) + "-%d" % int(time.time() * 1000 % 100000))
         e = dict(os.environ)
         if env:
@@ -78,7 +78,7 @@ class Ctx:
         if heap:
             java.append("-Xmx" + heap)
         cmd = ["timeout", str(timeout)] + java + ["-cp", "/opt/veriftools/tla/tla2tools.jar:/opt/veriftools/tla/CommunityModules-deps.jar",
-               "tlc2.TLC", "-workers", str(w), "-metadir", meta, "-config", cfgp] + list(args) + [module + ".tla"]
+               "tlc2.TLC", "-workers", str(w), "-metadir", meta, "-config", cfgp] + (["-coverage", "1"] if coverage else []) + list(args) + [module + ".tla"]
         t = time.time()
         p = subprocess.run(cmd, cwd=self.specdir, env=e, stdout=subprocess.PIPE, stderr=subprocess.STDOUT, text=True)
         out = p.stdout
@@ -90,6 +90,17 @@ class Ctx:
         ok = ("No error has been found" in out) and p.returncode == 0
         rec = {"module": module, "cfg": os.path.basename(cfgp), "generated": gen, "distinct": dist,
                "ok": ok, "wall_s": round(time.time() - t, 1), "name": name or module}
+        if coverage:
+            # vacuity control (DESIGN 9): how often each action of the module was taken in this run (last coverage report)
+            acts = {}
+            for a, d, g in re.findall(r"^<(\w+) line \d+, col \d+ to line \d+, col \d+ of module %s>: (\d+):(\d+)$" % module, out, re.M):
+                acts[a] = int(g)
+            rec["actions_taken"] = acts
+            tot = self.extra.setdefault("model_action_counts", {}).setdefault(module, {})
+            for a, g in acts.items():
+                tot[a] = tot.get(a, 0) + g
+            self.extra["model_actions_never_taken"] = {m: sorted(a for a, g in t.items() if g == 0 and a != "Init")
+                                                       for m, t in self.extra["model_action_counts"].items()}
         self.mc_runs.append(rec)
         if p.returncode == 124:
             raise Infra("TLC timeout on %s/%s" % (module, cfg))
@@ -412,6 +423,54 @@ def send_validate(ctx, trace_file, only, name="TraceSend"):
     rej, n = trace_validate(ctx, "TraceSend", "TraceSend.cfg", trace_file, name=name)
     absorb_rejections(ctx, rej, "TraceSend", trace_file, only=only)
     return n
+
+
+def refine_validate(ctx, n, only=None):
+    """(C, refinement) executions of the scenario WSConn.quick.cfg model-checks, replayed through WSConn's OWN actions by
+    TraceRefine.tla (one action per hook event, unlogged steps silent): each execution must be a behaviour of WSConn."""
+    trace = ctx.path("refine.ndjson")
+    rep = ctx.drive("refine", ["-n", n, "-seed", ctx.seed, "-conn-trace", trace], timeout=1800)
+    ctx.impl_traces += rep.get("evaluations", 0)
+    parts = {"client": ctx.path("refine_client.ndjson"), "server": ctx.path("refine_server.ndjson")}
+    fh = {k: open(v, "w") for k, v in parts.items()}
+    cur, role = [], None
+
+    def flush():
+        nonlocal cur, role
+        if cur and role is not None:
+            fh[role].write("".join(cur))
+        cur, role = [], None
+    for l in open(trace):
+        if '"TraceReset"' in l:
+            flush()
+        elif '"ConnNew"' in l:
+            role = "client" if json.loads(l).get("a") == 1 else "server"
+        cur.append(l)
+    flush()
+    for f in fh.values():
+        f.close()
+    skipped = 0
+    for role, path in parts.items():
+        if os.path.getsize(path) == 0:
+            continue
+        nlines = sum(1 for _ in open(path))
+        env = {"TRACE_FILE": path, "JAVA_TOOL_OPTIONS": "-Dtlc2.tool.queue.IStateQueue=StateDeque"}
+        rec, out = ctx.tlc("TraceRefine", "TraceRefine.%s.cfg" % role, env=env, workers=1, expect_ok=False, name="TraceRefine(%s)" % role, timeout=3000)
+        rej = [(int(a), b, " ".join(c.split())) for a, b, c in REJ.findall(out)]
+        if "No error has been found" not in out and not rej:
+            if "is violated" in out:
+                # an invariant of WSConn failed in a state reached by replaying a real execution
+                ctx.violations.append(("invariant-of-WSConn-violated-on-a-real-execution", 1,
+                                       {"sig": "invariant-of-WSConn-violated-on-a-real-execution", "detail": out[out.find("Error: Invariant"):][:600], "case": {"trace": path}}))
+                continue
+            sys.stderr.write(out[-4000:])
+            raise Infra("TraceRefine failed without a rejection (TLC error)")
+        m = re.search(r'"R3-SKIPPED",\s*(\d+)', out)
+        skipped += int(m.group(1)) if m else 0
+        ctx.extra["trace_events_validated"] = ctx.extra.get("trace_events_validated", 0) + nlines
+        absorb_rejections(ctx, rej, "TraceRefine", path, only=only)
+    ctx.extra["refinement_executions_replayed_through_WSConn"] = ctx.extra.get("refinement_executions_replayed_through_WSConn", 0) + rep.get("evaluations", 0)
+    ctx.extra["refinement_executions_cut_short_by_R3_reordering"] = ctx.extra.get("refinement_executions_cut_short_by_R3_reordering", 0) + skipped
 
 
 def split_by_conn(src, dst):
